@@ -18,8 +18,11 @@ def _gauss(xs, ys, mu, S):
 
 
 def _ref_scipy(x, y, mu, S):
+    """reference CDF in standardised coordinates (unit variances), so that tiny variances do not make SciPy reject the covariance"""
     from scipy.stats import multivariate_normal as mvn
-    return float(mvn(mean=mu, cov=S, allow_singular=False).cdf([x, y]))
+    sx, sy = math.sqrt(S[0][0]), math.sqrt(S[1][1])
+    r = S[0][1] / (sx * sy)
+    return float(mvn(mean=[0.0, 0.0], cov=[[1.0, r], [r, 1.0]], allow_singular=False).cdf([(x - mu[0]) / sx, (y - mu[1]) / sy]))
 
 
 def _ref_mpmath(x, y, mu, S):
@@ -41,7 +44,8 @@ R_VALUES = [0.05, 0.29, 0.31, 0.5, 0.74, 0.76, 0.9, 0.92, 0.924, 0.926, 0.93, 0.
 def _cases(rng, n):
     for _ in range(n):
         r = rng.choice(R_VALUES) * rng.choice([1, -1])
-        vx, vy = 10 ** rng.uniform(-2, 2), 10 ** rng.uniform(-2, 2)
+        lo = rng.choice([-2, -2, -9])          # variances over many orders of magnitude, down to 1e-9
+        vx, vy = 10 ** rng.uniform(lo, 2), 10 ** rng.uniform(lo, 2)
         mu = [rng.uniform(-3, 3), rng.uniform(-3, 3)]
         c = r * math.sqrt(vx * vy)
         S = [[vx, c], [c, vy]]
